@@ -19,7 +19,11 @@ def mk_case(cid, abstract, rng, plain=False, overlap=False):
         doc = plssdoc.concretise(abstract, rng, block_pool=R.BLOCKS[:10], tr_map=rng.choice(OVERLAP_MAPS))
         text = plssdoc.render_doc(doc, rng, tr_templates=R.TR_TEMPLATES_OVERLAP)
     else:
-        doc = plssdoc.concretise(abstract, rng)
+        # the two abstract Twp/Rge identities stand for two different townships drawn from the pool
+        # (1-3 digit numbers, all four N/S x E/W combinations)
+        from .. import render as R
+        a_, b_ = rng.sample(R.TR_POOL, 2)
+        doc = plssdoc.concretise(abstract, rng, tr_map=None if plain else {1: a_, 2: b_})
         text = plssdoc.render_doc(doc, rng, plain=plain)
     return {"id": cid, "kind": "c01",
             "abs": {"layout": doc["layout"], "groups": doc["groups"]},
